@@ -6,7 +6,7 @@
 #include <stdlib.h>
 #include <string.h>
 
-int verif_crash;
+uint32_t verif_crash;
 
 /* a crash (abort / uncaught exception / trap) is never acceptable for any of the
  * properties: it is reported as a failed assertion and the path ends */
@@ -20,8 +20,41 @@ void _ZdlPvm(void *p, uint64_t n) { free(p); }
 void *ll_malloc(uint64_t n) { void *p = malloc(n ? n : 1); __CPROVER_assume(p != 0); return p; }
 void ll_free(void *p) { free(p); }
 
-void ll_memcpy(void *d, void *s, uint64_t n) { char *a = d; const char *b = s; for (uint64_t i = 0; i < n; i++) a[i] = b[i]; }
-void ll_memmove(void *d, void *s, uint64_t n) { char *a = d; const char *b = s; if (a <= b) { for (uint64_t i = 0; i < n; i++) a[i] = b[i]; } else { for (uint64_t i = n; i > 0; i--) a[i-1] = b[i-1]; } }
+/* memcpy/memmove: clang lowers struct assignment and vector relocation to memcpy/memmove.  A byte-wise copy strips
+ * CBMC's pointer provenance from every pointer inside the copied object, while copying characters as pointer-sized
+ * chunks makes constant characters symbolic.  ll2c therefore chooses by the static type of the operands: objects that
+ * contain pointers go through ll_memcpy_ptr/ll_memmove_ptr (8-byte chunks when size and offsets allow) or a typed
+ * struct assignment; everything else (character data) is copied byte by byte. */
+#define LL_CHUNKED(d, s, n) (((n) & 7) == 0 && (__CPROVER_POINTER_OFFSET(d) & 7) == 0 && (__CPROVER_POINTER_OFFSET(s) & 7) == 0)
+void ll_memcpy(void *d, void *s, uint64_t n) {
+  char *a = d; const char *b = s;
+  for (uint64_t i = 0; i < n; i++) a[i] = b[i];
+}
+void ll_memmove(void *d, void *s, uint64_t n) {
+  char *a = d; const char *b = s;
+  if (!__CPROVER_same_object(d, s) || a <= b) { for (uint64_t i = 0; i < n; i++) a[i] = b[i]; }
+  else { for (uint64_t i = n; i > 0; i--) a[i - 1] = b[i - 1]; }
+}
+void ll_memcpy_ptr(void *d, void *s, uint64_t n) {
+  if (LL_CHUNKED(d, s, n)) {
+    void **a = d; void **b = s;
+    for (uint64_t i = 0; i < n / 8; i++) a[i] = b[i];
+  } else {
+    char *a = d; const char *b = s;
+    for (uint64_t i = 0; i < n; i++) a[i] = b[i];
+  }
+}
+void ll_memmove_ptr(void *d, void *s, uint64_t n) {
+  if (LL_CHUNKED(d, s, n)) {
+    void **a = d; void **b = s;
+    if (!__CPROVER_same_object(d, s) || (char *)d <= (char *)s) { for (uint64_t i = 0; i < n / 8; i++) a[i] = b[i]; }
+    else { for (uint64_t i = n / 8; i > 0; i--) a[i - 1] = b[i - 1]; }
+  } else {
+    char *a = d; const char *b = s;
+    if (!__CPROVER_same_object(d, s) || a <= b) { for (uint64_t i = 0; i < n; i++) a[i] = b[i]; }
+    else { for (uint64_t i = n; i > 0; i--) a[i - 1] = b[i - 1]; }
+  }
+}
 void ll_memset(void *d, uint8_t c, uint64_t n) { if (n) memset(d, c, n); }
 
 uint64_t ll_strlen(void *s) { const char *p = (const char *)s; uint64_t n = 0; while (p[n]) n++; return n; }
@@ -67,3 +100,8 @@ void __cxa_guard_abort(void *g) { }
 uint32_t __cxa_atexit(void *f, void *a, void *d) { return 0; }
 void _ZNSt8ios_base4InitC1Ev(void *p) { }
 void _ZNSt8ios_base4InitD1Ev(void *p) { }
+
+/* process exit: the code is recorded, the optional harness hook verif_at_exit() runs, the path ends */
+uint32_t verif_exited, verif_exit_code;
+void verif_at_exit(void);
+void ll_exit(uint32_t code) { verif_exit_code = code; verif_exited = 1; verif_at_exit(); __CPROVER_assume(0); }
